@@ -503,10 +503,28 @@ func (w *world) connectOn(hc *hostConn, name string) error {
 	return hc.cliSide.Call(ctx, &resp, "vipnode_connect", sig, id, nonce, req)
 }
 
+// peerInfos renders peers the way local nodes report them: parity style (the id is the public
+// key) or geth style (the id is a hash; the public key is only in the enode record, whose
+// address part is whatever the node printed: plain, IPv6 with a zone, or garbage). The pool must
+// identify the peer by its public key in every style.
 func peerInfos(ids []string) []ethnode.PeerInfo {
 	r := make([]ethnode.PeerInfo, len(ids))
 	for i, id := range ids {
 		r[i] = ethnode.PeerInfo{ID: id}
+		if len(id) != 128 {
+			continue
+		}
+		switch (i + len(ids)) % 4 {
+		case 1:
+			r[i].ID = "3f" + id[:62]
+			r[i].Enode = "enode://" + id + "@10.1.2.3:30303"
+		case 2:
+			r[i].ID = "3f" + id[:62]
+			r[i].Enode = "enode://" + id + "@[fe80::1%eth0]:30303"
+		case 3:
+			r[i].ID = "3f" + id[:62]
+			r[i].Enode = "enode://" + id + "@not an address:zz?discport=0"
+		}
 	}
 	return r
 }
